@@ -7,6 +7,8 @@ samples next, when the driver post-processes), and a second independent plan for
 Oracle: conservation through a sentinel flush, per-emission lower/upper bound, metamorphic (two plans), monotone
 sample type, at least one normal value, unit, pass-through of runner-supplied throughput.
 """
+import hashlib
+
 from hypothesis import strategies as st
 
 from esrally import metrics, track
@@ -85,7 +87,18 @@ def _case(draw):
             c["client_offset"] = draw(st.sampled_from([0.0, 0.0, 1 / 1024, 0.25]))
             clients.append(c)
         workers.append(clients)
-    return {"tasks": tasks, "workers": workers, "plan_a": draw(_plan(n_workers)), "plan_b": draw(_plan(n_workers))}
+    case = {"tasks": tasks, "workers": workers, "plan_a": draw(_plan(n_workers)), "plan_b": draw(_plan(n_workers))}
+    # (derived from a drawn ticket: Hypothesis would visit a rare branch of a sampled_from far more often than its share)
+    if int(hashlib.sha256(str(draw(st.integers(0, 2**32))).encode()).hexdigest(), 16) % 120 == 0:
+        # volume: tens of thousands of samples of one task inside a single one-second bucket, cut into two batches in the middle of it
+        n = 20000
+        case["workers"][0][0]["burst"] = n
+        case["tasks"][case["workers"][0][0]["task"]]["runner_throughput"] = False  # (pass-through emits one value per sample)
+        case["workers"][0][0]["failures_as_ops"] = False
+        own = len(case["workers"][0][0]["gaps"])
+        case["plan_a"] = [["ship", 0, own + draw(st.sampled_from([n // 2, n - 1000, 17000]))], ["tick", 0, 0]]
+        case["plan_b"] = []
+    return case
 
 
 def strategy(tier, known):
@@ -119,8 +132,10 @@ def _build_streams(case):
             tspec = case["tasks"][ti]
             start = EPOCH + tspec["start_offset"] + c["client_offset"]
             t = 0.0
-            for k, (g, ops) in enumerate(zip(c["gaps"], c["ops"])):
-                t += GAPS[g]
+            gaps = [GAPS[g] for g in c["gaps"]] + [1 / 65536] * c.get("burst", 0)
+            all_ops = list(c["ops"]) + [1] * c.get("burst", 0)
+            for k, (gap, ops) in enumerate(zip(gaps, all_ops)):
+                t += gap
                 st_type = metrics.SampleType.Warmup if k < c["warmup"] else metrics.SampleType.Normal
                 tp = (ops * 3 + 1.5) if tspec["runner_throughput"] else None
                 s = driver.Sample(
@@ -131,9 +146,9 @@ def _build_streams(case):
                     tasks[ti],
                     st_type,
                     None,
-                    GAPS[g],
-                    GAPS[g],
-                    GAPS[g],
+                    gap,
+                    gap,
+                    gap,
                     tp,
                     ops,
                     "ops" if (ops == 0 and c.get("failures_as_ops")) else tspec["unit"],
@@ -170,6 +185,7 @@ def _close(a, b):
 def _run_plan(tasks, streams, plan, obs, tag, case_units=None):
     case_units = case_units or [None] * len(tasks)
     mixed_units = [False]
+    by_time = {}  # task -> absolute time -> samples delivered so far
     store = _Store()
     pp = driver.SamplePostprocessor(store, 1, {}, {})
     batches = _batches(streams, plan)
@@ -214,14 +230,20 @@ def _run_plan(tasks, streams, plan, obs, tag, case_units=None):
                 silent_run[t] += 1
                 max_silent_run[t] = max(max_silent_run[t], silent_run[t])
             total_delivered = sum(s.total_ops for s in delivered[t])
+            ss_ids = {id(x) for x in ss}
+            # (the sample a value is reported at may have been delivered in an earlier batch: the carry-over of an unfinished bucket)
+            ss_by_time = by_time.setdefault(t, {})
+            for x in ss:
+                ss_by_time.setdefault(x.absolute_time, []).append(x)
+            ss_mixed = any(x.total_ops_unit != case_units[idx] for x in ss)
             for r in recs:
                 # the unit of a value is the unit of the sample it is reported at; at a failed request (0 "ops") the task's own unit is
                 # accepted as well (the statement does not say which of the two a value reported there should carry)
                 task_unit = case_units[idx]
-                at_samples = [x for x in ss if x.absolute_time == r["absolute_time"]] or ss
+                at_samples = ss_by_time.get(r["absolute_time"]) or ss
                 accepted = {f"{x.total_ops_unit}/s" for x in at_samples} | ({f"{task_unit}/s"} if any(x.total_ops_unit != task_unit for x in at_samples) else set())
                 obs.check(r["unit"] in accepted, "unit", f"{tag}: task{idx} unit {r['unit']!r} at a sample with ops unit {sorted(x.total_ops_unit for x in at_samples)} (task unit {task_unit!r})")
-                if any(x.total_ops_unit != task_unit for x in ss):
+                if ss_mixed:
                     mixed_units[0] = True
                 if not obs.check(isinstance(r["value"], (int, float)) and not isinstance(r["value"], bool), "not-a-number", f"{tag}: task{idx} throughput value {r['value']!r}"):
                     continue
@@ -238,7 +260,7 @@ def _run_plan(tasks, streams, plan, obs, tag, case_units=None):
                     at = r["absolute_time"]
                     # elapsed time: the calculator uses the largest elapsed time seen so far; "elapsed at the emitting sample" is
                     # accepted as well (they differ only under out-of-order arrival)
-                    seen = [s for s in delivered[t] if (s not in ss) or s.absolute_time <= at]
+                    seen = [s for s in delivered[t] if (id(s) not in ss_ids) or s.absolute_time <= at]
                     intervals = {max(s.absolute_time - start_time[t] for s in seen), at - start_time[t]}
                     lower = sum(s.total_ops for s in delivered[t] if s.absolute_time < at)
                     ok = False
@@ -307,6 +329,8 @@ def run_case(case, obs):
         obs.cls("multi-worker")
     if any(t["runner_throughput"] for t in case["tasks"]):
         obs.cls("runner-throughput")
+    if any(c.get("burst") for w in case["workers"] for c in w):
+        obs.cls("volume")
     obs.mark_nontrivial(nt_a or nt_b or ooo_a or ooo_b)
 
 
